@@ -56,6 +56,8 @@ mod utils;
 
 #[cfg(eigerco_lumina_verif)]
 pub(crate) use crate::p2p::header_ex::client_sim_verif_hooks as header_ex_client_sim_verif_hooks;
+#[cfg(eigerco_lumina_verif)]
+pub use shrex::codec_verif_hooks as shrex_codec_verif_hooks;
 
 use crate::block_ranges::BlockRange;
 use crate::events::EventPublisher;
